@@ -72,7 +72,18 @@ int tickit_bindings_run_event_whilefalse(struct TickitBindings *bindings, void *
 
   for(struct TickitBinding *bind = bindings->first; bind; bind = bind->next)
     if(bind->evindex == evindex) {
-      ret = (*bind->fn)(owner, TICKIT_EV_FIRE, info, bind->data);
+      TickitEventFlags flags = TICKIT_EV_FIRE;
+      TickitEventFn *fn = bind->fn;
+      void *data = bind->data;
+      if(bind->flags & TICKIT_BIND_ONESHOT) {
+        flags |= TICKIT_EV_UNBIND;
+        bind->id = BINDING_ID_TOMBSTONE;
+        bind->evindex = -1;
+        bind->flags = 0;
+        bind->fn = NULL;
+        bindings->needs_delete = true;
+      }
+      ret = (*fn)(owner, flags, info, data);
       if(ret)
         goto exit;
     }
